@@ -7,10 +7,12 @@ legs:   M  exhaustive TLC check of the design + its four wrong-design switches (
         A  TLC-generated call histories (and the encoding-law table) replayed on falcon.Response and
            falcon.asgi.Response inside real App calls; every step compared with what the spec holds
         B  the traces recorded in A plus seeded random histories beyond the bound, judged by TLC
+        cookie names: spec/MC_RespHeadersCkn.tla (alphabet of names: law + table), leg A4 in run()
 """
 import calendar
 import datetime as dt
 import email.utils
+import http.cookies
 import json
 import os
 import re
@@ -40,7 +42,18 @@ META = {
                   'the property). Order among Set-Cookie lines and Content-Length are D-clauses. unset_cookie on a name '
                   'already written in the response: value empty, expired, SameSite and any Domain/Path the call gave are '
                   'P-clauses; attributes it did not give may be absent or inherited from the earlier write (D:unset-inherit) '
-                  '- unset_cookie cannot be asked for Secure/HttpOnly and falcon\'s own suite pins their inheritance.',
+                  '- unset_cookie cannot be asked for Secure/HttpOnly and falcon\'s own suite pins their inheritance. '
+                  'Cookie NAMES: RespHeadersOps states CookieNameLegal (RFC 7230 token: the 15 specials, digits, letters), the '
+                  'Cookie-header reader (ReadCookieHeader) and the law CookieNameRoundTrip (accepted => emitted verbatim => read '
+                  'back under the same name with the same value, two other cookies before and two after it in one header); '
+                  'MC_RespHeadersCkn enumerates every name of <= 2 characters over the complete alphabet (106 characters: all '
+                  'tchars, all 17 separators, blank, TAB, 5 controls, DEL, 4 non-ASCII) and every 3-character name over 31 of '
+                  'them in quick (all 15 specials, 11 separators, 0, a, blank, \\x01, e-acute; 41 134 names), over the complete '
+                  'alphabet in thorough (1.2 million names, law only; the same 41 134 are exported); each exported name is driven '
+                  'through set_cookie (2 of 3) or unset_cookie (1 of 3) on WSGI and ASGI responses and echoed into both Request '
+                  'classes; random histories draw token / spoiled names <= 6 characters, judged by TLC (P:cookie-name-refusal). '
+                  'The kind of exception unset_cookie raises for a refused name is not checked (undocumented: KeyError or '
+                  'http.cookies.CookieError count as refusal).',
 }
 
 from engine import drivers
@@ -342,8 +355,8 @@ _COMMON = ('op', 'err', 'exc', 'res', 'after')
 EVENT_FIELDS = {
     'get': _COMMON + ('n',), 'set': _COMMON + ('n', 'v'), 'delete': _COMMON + ('n',), 'append': _COMMON + ('n', 'v'),
     'set_headers': _COMMON + ('items', 'asdict'), 'typed': _COMMON + ('p', 'a', 'law'), 'typed_get': _COMMON + ('p',),
-    'link': _COMMON + ('link', 'law'), 'set_cookie': _COMMON + ('ck', 'ca', 'vcps'),
-    'unset_cookie': _COMMON + ('ck', 'ua', 't0', 't1'), 'set_option': _COMMON + ('flag',),
+    'link': _COMMON + ('link', 'law'), 'set_cookie': _COMMON + ('ck', 'ckcps', 'ca', 'vcps'),
+    'unset_cookie': _COMMON + ('ck', 'ckcps', 'ua', 't0', 't1'), 'set_option': _COMMON + ('flag',),
 }
 
 
@@ -471,17 +484,24 @@ def _do(resp, c, ev):
             ev['law'] = law
         elif op == 'set_cookie':
             ev['vcps'] = cps(c['ca']['value'])
+            ev['ckcps'] = cps(c['ck'])
             try:
                 resp.set_cookie(c['ck'], c['ca']['value'], **cookie_kwargs(c['ca']))
             except ValueError:          # documented: "`value` is not a valid cookie value" (not ASCII)
+                ev['err'] = True
+            except KeyError:            # documented: "`name` is not a valid cookie name"
                 ev['err'] = True
         elif op == 'set_option':
             # the application changes the option mid-request (resp.options is app.resp_options)
             resp.options.secure_cookies_by_default = c['flag']
         elif op == 'unset_cookie':
             ev['t0'] = int(time.time())
+            ev['ckcps'] = cps(c['ck'])
             kw = {k: c['ua'][k] for k in ('domain', 'path') if c['ua'][k]}
-            resp.unset_cookie(c['ck'], samesite=c['ua']['samesite'], **kw)
+            try:
+                resp.unset_cookie(c['ck'], samesite=c['ua']['samesite'], **kw)
+            except (KeyError, http.cookies.CookieError):    # a name that cannot be a cookie name is refused (the kind of
+                ev['err'] = True                            # exception is not documented for unset_cookie)
             ev['t1'] = int(time.time())
         else:
             raise MachineryError('unknown op %r' % op)
@@ -545,7 +565,7 @@ def _execute(iface, sd, calls, media):
 
     def script(req, resp):
         for c in calls:
-            ev = dict(c, err=False, exc='', res=[], after=[], law=NOLAW, t0=0, t1=0, vcps=[])
+            ev = dict(c, err=False, exc='', res=[], after=[], law=NOLAW, t0=0, t1=0, vcps=[], ckcps=[])
             _do(resp, c, ev)
             # keep what the judge reads for this kind of call (traces are big otherwise)
             evs.append({k: ev[k] for k in EVENT_FIELDS[c['op']]})
@@ -780,8 +800,15 @@ def judge_all(ctx, items, timeout=1500):
         clause = v.split('|')[0]
         k = explained.get(i)
         hint = '' if not k else ' [would be accepted with the repaired defect(s) back: %s]' % '; '.join(DEVIATIONS[d] for d in k)
-        ctx.violation(clause, {'case': case, 'trace': trace}, 'trace rejected by RespHeadersTrace: %s%s' % (v, hint))
-        nfail += 1
+        sig = None
+        if clause == 'P:cookie-name-refusal':
+            try:
+                e = trace['ev'][int(v.rsplit('@', 1)[1]) - 1]
+                sig = name_signature(e['op'], e['ck'], e['err'])
+            except (ValueError, IndexError, KeyError):
+                sig = None
+        if ctx.violation(clause, {'case': case, 'trace': trace}, 'trace rejected by RespHeadersTrace: %s%s' % (v, hint), signature=sig) is not False:
+            nfail += 1
     return rejected, nfail
 
 
@@ -910,6 +937,32 @@ def rcookie(rng):
     return ca
 
 
+TOKEN_SPECIALS = "!#$%&'*+-.^_`|~"
+NAME_REFUSED = '()<>@,;:\\"/[]?={} \t\x00\x01\n\r\x1f\x7f\x80\xe9\xff\u20ac'
+
+
+def rckname(rng):
+    """cookie names: the fixed pool, random RFC 7230 tokens (specials at the start / in the middle / at the end, names
+    of specials only), and tokens spoiled by one character set_cookie must refuse"""
+    t = rng.random()
+    if t < 0.4:
+        return rng.choice(R_COOKIE_NAMES)
+    n = ''.join(rng.choice(TOKEN_SPECIALS if rng.random() < 0.6 else 'aZ09bk') for _ in range(rng.randint(1, 5)))
+    if t < 0.85:
+        return n
+    i = rng.randint(0, len(n))
+    return n[:i] + rng.choice(NAME_REFUSED) + n[i:]
+
+
+def nontoken_chars(name):
+    return sorted({ch for ch in name if ch not in TCHAR})
+
+
+def name_signature(op, name, err):
+    """structural signature of a name-refusal failure: which call, accepted or refused, which non-token characters"""
+    return {'clause': 'P:cookie-name-refusal', 'op': op, 'refused': bool(err), 'nontoken': nontoken_chars(name)}
+
+
 def random_history(rng):
     calls = []
     for _ in range(rng.randint(1, 12)):
@@ -941,11 +994,11 @@ def random_history(rng):
         elif t < 0.80:
             calls.append(call('link', link=rlink(rng)))
         elif t < 0.90:
-            calls.append(call('set_cookie', ck=rng.choice(R_COOKIE_NAMES), ca=rcookie(rng)))
+            calls.append(call('set_cookie', ck=rckname(rng), ca=rcookie(rng)))
         elif t < 0.94:
             calls.append(call('set_option', flag=rng.random() < 0.5))
         else:
-            calls.append(call('unset_cookie', ck=rng.choice(R_COOKIE_NAMES),
+            calls.append(call('unset_cookie', ck=rckname(rng),
                               ua={'samesite': rng.choice(['Lax', 'Lax', 'Strict', 'None']), 'domain': rng.choice(R_DOMAINS),
                                   'path': rng.choice(R_PATHS)}))
     return calls
@@ -1151,6 +1204,104 @@ def run(ctx):
     ctx.traces_validated += (len(cvals) + per - 1) // per
     ctx.extra['cookie_values_round_tripped'] = nck
     ctx.progress('leg A3 done: %d cookie values (law model-checked, each round-tripped)' % nck)
+
+    # ---- leg A4: the alphabet of cookie NAMES ------------------------------------------------------------------
+    # TLC checks CookieNameRoundTrip / CookieNameVerbatim / CookieNameRefusals for every name of <= 3 characters
+    # (quick: <= 2 over the complete alphabet, 3 over specials + separators + representatives; thorough: 3 over the
+    # complete alphabet) and exports (name, legal) plus the neighbours of the law.  Each exported name goes through
+    # set_cookie or unset_cookie on a real response between the spec's neighbours (two before, two after), the Set-Cookie
+    # lines as the server got them go back in one Cookie header, and both Request classes read it.
+    rw = ctx.tlc('MC_RespHeadersCkn', 'MC_RespHeadersCkn_Colon.cfg', must_hold=False, count=False, workers=2, timeout=300)
+    if rw.violated != 'CookieNameRoundTrip':
+        raise MachineryError('accepting the names of http.cookies (colon) should violate CookieNameRoundTrip, TLC says %r' % rw.violated)
+    wrong['HttpCookiesNames'] = rw.violated
+    rn = ctx.tlc('MC_RespHeadersCkn', ctx.pick('MC_RespHeadersCknQ.cfg', 'MC_RespHeadersCkn.cfg'), coverage=True,
+                 workers=ctx.pick(6, 16), timeout=ctx.pick(600, 3000))
+    ctx.require_coverage(rn, ['CknNext'])
+    table = {}
+    konst = None
+    for c in rn.json:
+        table.setdefault(tuple(c['n']), c['legal'])
+        if not c['n']:
+            konst = c
+    if konst is None or len(table) < ctx.pick(40000, 40000) or not any(table.values()):
+        raise MachineryError('cookie name table: %d names, constants %r' % (len(table), konst))
+    txt = lambda cp: ''.join(map(chr, cp))
+    nvalue = txt(konst['value'])
+    before = [call('set_cookie', ck=txt(p['n']), ca=dict(NOCA, value=txt(p['v']))) for p in konst['before']]
+    after = [call('set_cookie', ck=txt(p['n']), ca=dict(NOCA, value=txt(p['v']))) for p in konst['after']]
+    neigh = {c['ck']: c['ca']['value'] for c in before + after}
+    names = sorted(table)
+    ctx.rng.shuffle(names)          # (so that every response mixes lengths, legal and refused names)
+    per = 60
+    agg = {}                        # (clause, signature json) -> [count, first what, first case]
+
+    def name_fail(clause, sig, what, case):
+        k = (clause, json.dumps(sig, sort_keys=True))
+        a = agg.setdefault(k, [0, what, case, sig])
+        a[0] += 1
+
+    nnames = 0
+    for bi, off in enumerate(range(0, len(names), per)):
+        part = [txt(n) for n in names[off:off + per]]
+        iface = 'wsgi' if bi % 2 == 0 else 'asgi'
+        # two of three responses write the names with set_cookie, the third with unset_cookie; names <= 2 characters
+        # (the complete alphabet) take both routes on both stacks over the seeds
+        mid = []
+        for j, nm in enumerate(part):
+            if (bi // 2 + j) % 3 == 2:
+                mid.append(call('unset_cookie', ck=nm, ua={'samesite': 'Lax', 'domain': '', 'path': ''}))
+            else:
+                mid.append(call('set_cookie', ck=nm, ca=dict(NOCA, value=nvalue)))
+        calls = before + mid + after
+        trace = execute(iface, True, calls)
+        case = {'origin': 'spec-cookie-name-table', 'iface': iface, 'sd': True, 'calls': calls}
+        ctx.case(case, nontrivial=False, key=digest(case))
+        if bi % 8 == 0:             # a share of these traces is judged by TLC as well
+            items.setdefault(digest(trace), (trace, case))
+        nnames += len(part)
+        e = trace['ev'][-1]
+        if e['exc']:
+            pending.append((digest(trace), ('P:exception', e['exc']), case))
+            continue
+        lines = {}
+        for ln in e['lines']:
+            lines.setdefault(ln['name'], []).append(ln)
+        echo = dict((a, b) for a, b in e['echo'])
+        echo1 = dict((a, b) for a, b in e['echo1'])
+        small = lambda c: dict(case, calls=before + [c] + after)
+        for c, ev in zip(mid, trace['ev'][len(before):]):
+            nm, op, legal = c['ck'], c['op'], table[tuple(cps(c['ck']))]
+            if ev['exc']:
+                name_fail('P:exception', {'clause': 'P:exception', 'op': op, 'nontoken': nontoken_chars(nm)},
+                          '%s(%r) raised %s' % (op, nm, ev['exc']), small(c))
+            elif ev['err'] != (not legal):
+                name_fail('P:cookie-name-refusal', name_signature(op, nm, ev['err']),
+                          '%s(%r): refused=%r, spec CookieNameLegal=%r' % (op, nm, ev['err'], legal), small(c))
+            elif legal:
+                want = [nvalue] if op == 'set_cookie' else ['']
+                ls = lines.get(nm, [])
+                if len(ls) != 1 or not ls[0]['text'].startswith(nm + '='):
+                    name_fail('P:cookie-lines', {'clause': 'P:cookie-lines', 'op': op, 'emitted-verbatim': False},
+                              '%s(%r): %d Set-Cookie lines carry the name verbatim (lines %r)' % (op, nm, len(ls), [l['text'] for l in ls][:2]), small(c))
+                elif echo.get(nm) != want or echo1.get(nm) != want:
+                    name_fail('P:cookie-echo', {'clause': 'P:cookie-echo', 'op': op, 'legal-name': True},
+                              'cookie %r written by %s and echoed between other cookies is read as get_cookie_values=%r cookies=%r, spec %r'
+                              % (nm, op, echo.get(nm), echo1.get(nm), want), small(c))
+            elif nm in lines:
+                name_fail('P:cookie-lines', {'clause': 'P:cookie-lines', 'op': op, 'refused-but-emitted': nontoken_chars(nm)},
+                          '%s(%r) was refused but a line carries the name' % (op, nm), small(c))
+        for nm, v in neigh.items():
+            if echo.get(nm) != [v] or echo1.get(nm) != [v]:
+                name_fail('P:cookie-echo', {'clause': 'P:cookie-echo', 'neighbour': nm},
+                          'neighbour cookie %r=%r is read as %r next to the names %r' % (nm, v, echo.get(nm), part[:5]), case)
+    for (clause, _), (cnt, what, case1, sig) in sorted(agg.items(), key=lambda kv: kv[0]):
+        ctx.violation(clause, case1, '%s  [%d names of the table fail this way]' % (what, cnt), signature=sig)
+    ctx.traces_validated += (len(names) + per - 1) // per
+    ctx.extra['cookie_names_round_tripped'] = nnames
+    ctx.extra['cookie_names_legal'] = sum(1 for v in table.values() if v)
+    ctx.progress('leg A4 done: %d cookie names (%d legal; law model-checked over %d states, each exported name replayed), %d failure classes'
+                 % (nnames, ctx.extra['cookie_names_legal'], rn.distinct, len(agg)))
 
     # ---- leg B: seeded random histories beyond the bound --------------------------------------------
     nrand = ctx.pick(2500, 30000)
